@@ -797,7 +797,6 @@ func liveCheck(check func(*Case, *Stats) error) func(*Case, *Stats) error {
 	}
 }
 
-
 // legacyLiveCheck (round g, C06-g): a trie LOADED from a legacy stream earlier and
 // still alive must keep its answers while other legacy streams are loaded into
 // other instances (the conversion of an old layout builds a new trie; whatever it
